@@ -7,12 +7,15 @@ Full structural decision for the stated scope:
                (i)  the *limit side* of ``measure > limit`` in an ``if`` whose only effect is
                     ``raise <ResourceLimitError subclass>`` (no else) — success is monotone
                     in the limit because the limit is on the smaller-is-stricter side;
-               (ii) a None / falsy test that disables such a guard or selects the unlimited
-                    buffer / a zero measure;
+               (ii) an ``is not None`` conjunct enabling such a guard, or ``if limit is None:
+                    return <unlimited buffer / zero measure>`` — never a truthiness test (0
+                    would mean "unlimited" while 1 is the strictest limit: not monotone);
                (iii) the ``limit=`` argument of ``LimitedStringIO`` (optionally minus the
                     bytes already written to the parent buffer).
   C08-WRITE  ``LimitedStringIO.write`` compares ``size > limit`` and only raises
              OutputStreamLimitError.
+  C08-NEWLINE the limited buffer is constructed with the same newline mode as the unlimited
+             ``StringIO()`` (no translation) and no call site overrides it.
   C08-CATCH  no handler that can catch a ResourceLimitError swallows or converts it; the
              only handlers are the env.error routers (which re-raise in strict mode) and
              plain re-raises.
@@ -27,6 +30,7 @@ from __future__ import annotations
 import ast
 
 from ..astutil import attr_chain, callee_name, handler_types, text
+from ..astutil import calls as calls_in
 from ..core import Result
 from ..engines import hnd
 from ..model import AnchorMissing, Repo, walk_no_nested
@@ -71,7 +75,7 @@ def _raises_limit_error(H, body) -> bool:
 
 def run(repo: Repo) -> Result:
     res = Result(PID)
-    res.rules = ["C08-READ", "C08-WRITE", "C08-CATCH", "C08-CLASS"]
+    res.rules = ["C08-READ", "C08-WRITE", "C08-NEWLINE", "C08-CATCH", "C08-CLASS"]
     res.explanation = (
         "who-may rule over every read of a resource limit (monotone raise-guards only) + "
         "handler discipline for the ResourceLimitError family"
@@ -115,29 +119,38 @@ def run(repo: Repo) -> Result:
                         # every other conjunct must be a truthiness test of the same limit
                         conj = stmt.test.values if isinstance(stmt.test, ast.BoolOp) and isinstance(stmt.test.op, ast.And) else [stmt.test]
                         others = [c for c in conj if c is not parent]
-                        if all(isinstance(c, ast.Attribute) and c.attr == n.attr for c in others):
+                        def _is_not_none(c):
+                            return isinstance(c, ast.Compare) and len(c.ops) == 1 and isinstance(c.ops[0], ast.IsNot) and isinstance(c.left, ast.Attribute) and c.left.attr == n.attr and isinstance(c.comparators[0], ast.Constant) and c.comparators[0].value is None
+
+                        if any(isinstance(c, ast.Attribute) and c.attr == n.attr for c in others):
+                            verdict = ("bad", f"the guard is enabled by the truthiness of the limit (`{text(stmt.test)[:60]}`): a limit of 0 means unlimited while 1 is the strictest value, so success is not monotone in the limit — test `is not None`")
+                        elif all(_is_not_none(c) for c in others):
                             verdict = "guard"
                         else:
                             verdict = ("bad", f"extra condition in limit guard `{text(stmt.test)[:80]}`")
                     else:
                         verdict = ("bad", f"`if {text(stmt.test)[:70]}` must only raise a ResourceLimitError (no else, no other effect)")
-                elif isinstance(op, (ast.Is, ast.IsNot)) and isinstance(right, ast.Constant) and right.value is None:
-                    verdict = "none-test"
+                elif isinstance(op, ast.IsNot) and isinstance(right, ast.Constant) and right.value is None:
+                    # the enabling conjunct of a guard: `limit is not None and measure > limit`
+                    conj = stmt.test.values if isinstance(stmt.test, ast.BoolOp) and isinstance(stmt.test.op, ast.And) else [stmt.test]
+                    if parent in conj and _raises_limit_error(H, stmt.body) and not stmt.orelse:
+                        verdict = "enable-test"
+                    else:
+                        verdict = ("bad", f"`{text(stmt.test)[:70]}`: an `is not None` test of a limit may only enable a raise-guard")
+                elif isinstance(op, ast.Is) and isinstance(right, ast.Constant) and right.value is None:
+                    # `if limit is None: return <unlimited value>`
+                    if parent is stmt.test and len(stmt.body) == 1 and isinstance(stmt.body[0], ast.Return) and not stmt.orelse:
+                        verdict = "none-test"
+                    else:
+                        verdict = ("bad", "an `is None` test of a limit may only return the unlimited value")
                 else:
                     verdict = ("bad", f"limit compared as `{text(parent)}`; only `measure > limit` is monotone")
             elif isinstance(parent, ast.BoolOp) and isinstance(parent.op, ast.And) and parent is stmt.test:
                 # truthiness conjunct `limit and measure > limit`
-                other = [c for c in parent.values if c is not n]
-                if all(isinstance(c, ast.Compare) and any(isinstance(x, ast.Attribute) and x.attr == n.attr for x in ast.walk(c)) for c in other):
-                    verdict = "enable-test"
-                else:
-                    verdict = ("bad", f"limit used as a condition of something else: `{text(stmt.test)[:80]}`")
+                verdict = ("bad", f"the guard is enabled by the truthiness of the limit (`{text(stmt.test)[:60]}`): a limit of 0 means unlimited while 1 is the strictest value, so success is not monotone in the limit — test `is not None`")
             elif isinstance(parent, ast.UnaryOp) and isinstance(parent.op, ast.Not) and parent is stmt.test:
                 # `if not limit: return <unlimited/zero>`
-                if len(stmt.body) == 1 and isinstance(stmt.body[0], ast.Return) and not stmt.orelse:
-                    verdict = "disable-test"
-                else:
-                    verdict = ("bad", "a `not limit` test may only return the unlimited value")
+                verdict = ("bad", f"`if not {n.attr}` treats a limit of 0 as unlimited (1 is the strictest value): success is not monotone in the limit — test `is None`")
             else:
                 verdict = ("bad", f"limit read in test `{text(stmt.test)[:80]}`")
         elif isinstance(parent, ast.keyword) or (isinstance(parent, ast.BinOp) and isinstance(parent.op, ast.Sub) and parent.left is n):
@@ -177,6 +190,37 @@ def run(repo: Repo) -> Result:
                     ok = True
     if not ok:
         res.add("C08-WRITE", w.qual, "size>limit", "LimitedStringIO.write must raise OutputStreamLimitError iff self.size > self.limit", w.file, w.line)
+
+    # ---- C08-NEWLINE: the limited buffer is the unlimited buffer plus a counter ------------
+    # StringIO() does not translate newlines (newline="\n"); StringIO(newline=None) translates
+    # "\r\n" and "\r" to "\n" on write.  The limited buffer must be constructed like the
+    # unlimited one or configuring a limit changes the text.
+    li = repo.own_method("liquid.output.LimitedStringIO", "__init__")
+    res.ob(li.qual, 2)
+    a = li.node.args
+    pos = a.posonlyargs + a.args
+    defaults = dict(zip([x.arg for x in pos[len(pos) - len(a.defaults):]], a.defaults))
+    sup = [c for c in calls_in(li.node) if isinstance(c.func, ast.Attribute) and c.func.attr == "__init__" and isinstance(c.func.value, ast.Call) and callee_name(c.func.value) == "super"]
+    if len(sup) != 1:
+        raise AnchorMissing("LimitedStringIO.__init__ no longer calls super().__init__ exactly once")
+    nl = sup[0].args[1] if len(sup[0].args) > 1 else next((k.value for k in sup[0].keywords if k.arg == "newline"), None)
+    if nl is None:
+        pass  # StringIO's own default "\n"
+    elif isinstance(nl, ast.Constant):
+        if nl.value != "\n":
+            res.add("C08-NEWLINE", li.qual, f"newline={nl.value!r}", f"LimitedStringIO is built with newline={nl.value!r}; the unlimited buffer is StringIO() (newline='\\n', no translation), so a configured output limit rewrites line endings", li.file, sup[0].lineno)
+    elif isinstance(nl, ast.Name) and nl.id in defaults:
+        d = defaults[nl.id]
+        if not (isinstance(d, ast.Constant) and d.value == "\n"):
+            res.add("C08-NEWLINE", li.qual, f"newline-default={text(d)}", f"LimitedStringIO passes `{nl.id}` (default {text(d)}) to StringIO; the unlimited buffer is StringIO() (newline='\\n', no translation), so a configured output limit rewrites \\r\\n and \\r in the output", li.file, sup[0].lineno)
+    else:
+        res.add("C08-NEWLINE", li.qual, f"newline={text(nl)}", "cannot establish the newline mode of the limited buffer", li.file, sup[0].lineno)
+    for f in repo.all_functions():
+        for c in calls_in(f.node):
+            if callee_name(c) in ("LimitedStringIO", "StringIO") and f.module.name.startswith("liquid") and not f.module.name.startswith("liquid.output"):
+                res.ob(f"{f.qual}:{callee_name(c)}()")
+                if any(k.arg == "newline" for k in c.keywords) or len(c.args) > (2 if callee_name(c) == "LimitedStringIO" else 1):
+                    res.add("C08-NEWLINE", f.qual, f"{callee_name(c)}:newline-arg", f"{f.qual} builds an output buffer with an explicit newline mode: `{text(c)[:60]}`", f.file, c.lineno)
 
     # ---- C08-CATCH -----------------------------------------------------------
     n_h = 0
@@ -224,5 +268,10 @@ def selftest(repo: Repo):
         v("guard-with-else", CTX, "            raise LocalNamespaceLimitError(\"local namespace limit reached\", token=None)\n", "            raise LocalNamespaceLimitError(\"local namespace limit reached\", token=None)\n        else:\n            self.locals[key] = val\n", "C08-READ"),
         v("limit-never-enforced", CTX, "        if self._copy_depth > self.env.context_depth_limit:", "        if self._copy_depth > 1000:", "ANALYSIS-ERROR"),
         v("buffer-limit-scaled", "liquid/template.py", "return LimitedStringIO(limit=self.env.output_stream_limit)", "return LimitedStringIO(limit=self.env.output_stream_limit // 2, initial_value=str(self.env.output_stream_limit))", "C08-READ"),
+        v("get-buffer-falsy-limit", CTX, "        if self.env.output_stream_limit is None:\n            return StringIO()", "        if not self.env.output_stream_limit:\n            return StringIO()", "C08-READ"),
+        v("loop-guard-truthiness", CTX, "            self.env.loop_iteration_limit is not None\n", "            self.env.loop_iteration_limit\n", "C08-READ"),
+        v("namespace-size-falsy", CTX, "        if self.env.local_namespace_limit is None:\n            return 0", "        if not self.env.local_namespace_limit:\n            return 0", "C08-READ"),
+        v("limited-buffer-universal-newlines", "liquid/output.py", '        newline: Optional[str] = "\\n",', "        newline: Optional[str] = None,", "C08-NEWLINE"),
+        v("limited-buffer-explicit-newline", "liquid/template.py", "return LimitedStringIO(limit=self.env.output_stream_limit)", "return LimitedStringIO(limit=self.env.output_stream_limit, newline=None)", "C08-NEWLINE"),
         v("loop-limit-modulo", CTX, "            > self.env.loop_iteration_limit\n", "            > self.env.loop_iteration_limit % 1000\n", "C08-READ"),
     ]
